@@ -201,7 +201,11 @@ func has(l []string, s string) bool {
 
 // build materialises the world through the public API, types and relationships
 // in the given orders.
-func (w *c16world) build(t *core.Tape, typeOrder, relOrder []int, flip []bool, skip map[int]bool) (*jsonapi.Schema, *core.Panic, error) {
+//
+// how (per relationship, may be nil): bit 0 = call Rels() before adding it (a
+// caller peeking at a half-built schema must not change what the finished one
+// lists), bit 1 = add a two-way pair with AddTwoWayRel instead of two AddRel calls.
+func (w *c16world) build(t *core.Tape, typeOrder, relOrder []int, flip []bool, skip map[int]bool, how []int) (*jsonapi.Schema, *core.Panic, error) {
 	s := &jsonapi.Schema{}
 
 	var err error
@@ -225,9 +229,21 @@ func (w *c16world) build(t *core.Tape, typeOrder, relOrder []int, flip []bool, s
 				first, second = second, first
 			}
 
-			if !rs.twoWay {
+			h := 0
+			if how != nil {
+				h = how[ri]
+			}
+
+			if h&1 != 0 {
+				_ = s.Rels()
+			}
+
+			switch {
+			case !rs.twoWay:
 				err = s.AddRel(rs.r.FromType, rs.r)
-			} else {
+			case h&2 != 0:
+				err = s.AddTwoWayRel(first)
+			default:
 				if err = s.AddRel(first.FromType, first); err == nil {
 					err = s.AddRel(second.FromType, second)
 				}
@@ -352,6 +368,7 @@ func (w *c16world) compare(t *core.Tape, st *core.Stats, skip map[int]bool, viaR
 		typeOrder := make([]int, len(w.types))
 		relOrder := make([]int, len(w.rels))
 		flip := make([]bool, len(w.rels))
+		how := make([]int, len(w.rels))
 
 		for i := range typeOrder {
 			typeOrder[i] = i
@@ -367,6 +384,16 @@ func (w *c16world) compare(t *core.Tape, st *core.Stats, skip map[int]bool, viaR
 
 			for i := range flip {
 				flip[i] = rng.Intn(2) == 1
+
+				if rng.Intn(3) == 0 {
+					how[i] |= 1
+					st.Inc("probe:rels-peeked-while-building")
+				}
+
+				if rng.Intn(2) == 0 {
+					how[i] |= 2
+					st.Inc("probe:pair-added-with-AddTwoWayRel")
+				}
 			}
 		}
 
@@ -375,7 +402,7 @@ func (w *c16world) compare(t *core.Tape, st *core.Stats, skip map[int]bool, viaR
 			buildSkip = nil // build everything, then remove through the API
 		}
 
-		s, p, err := w.build(t, typeOrder, relOrder, flip, buildSkip)
+		s, p, err := w.build(t, typeOrder, relOrder, flip, buildSkip, how)
 		if p != nil {
 			return c16viol("no-panic", p.Func, "build:"+p.Class, "building the schema panicked: %s", p.Value)
 		}
@@ -428,7 +455,7 @@ func (w *c16world) compare(t *core.Tape, st *core.Stats, skip map[int]bool, viaR
 		}
 
 		lists[v] = rels
-		descs[v] = fmt.Sprintf("types %v rels %v flipped %v, map order %s", typeOrder, relOrder, flip, mo.Name())
+		descs[v] = fmt.Sprintf("types %v rels %v flipped %v how %v (1=Rels() peeked before, 2=AddTwoWayRel), map order %s", typeOrder, relOrder, flip, how, mo.Name())
 		t.Logf("variant %d (%s): Rels() = %s", v, descs[v], relsText(rels))
 
 		if relsText(rels) != relsText(again) {
